@@ -7,12 +7,14 @@ import NeoFS.Driver.Timers
 import NeoFS.Driver.Gov
 import NeoFS.Driver.Meta
 import NeoFS.Driver.Dump
+import NeoFS.Driver.WC
 open NeoFS NeoFS.Driver
 
 /-- State of all stateful models; pure models need none. -/
 structure DState where
   timers : NeoFS.Timers.ET := NeoFS.Timers.new []
   metaSt : NeoFS.Driver.MetaState := {}
+  wc : NeoFS.WC.St := { maxSize := 6000 }
 
 def stepLine (s : DState) (line : String) : DState × String :=
   let o := parseOp line
@@ -25,6 +27,7 @@ def stepLine (s : DState) (line : String) : DState × String :=
   | "arith" => (s, arithStep o)
   | "gov" => (s, govStep o)
   | "dump" => (s, dumpStep o)
+  | "wc" => let (w, out) := wcStep s.wc o; ({ s with wc := w }, out)
   | "meta" => let (m, out) := metaStep s.metaSt o; ({ s with metaSt := m }, out)
   | "timers" => let (t, out) := timersStep s.timers o; ({ s with timers := t }, out)
   | _ => (s, "=> bad-op")
